@@ -25,7 +25,7 @@ ASSUMPTIONS = ["ref/interp.py is the transition function", "the successor of an 
                "on the library's post-state", "plan lines have the form '(name arg ...)' with blanks/case noise"]
 REAL_VS_STUB = {"real": ["TrajectoryExporter.parse_plan/create_single_triplet/export/export_to_file, Operator, State, "
                          "parsers"], "stub": ["__hash__ seam", "builtins.open seam (plan file read faults)"]}
-TECHNIQUE = "deterministic simulation: seeded plan histories with injected invalid steps and plan-file read faults, refinement check against a reference transition system"
+TECHNIQUE = "deterministic simulation: seeded plan histories with injected invalid steps, plan-file read faults, exporter / operator re-use across in-place model revisions and cancellations; refinement check against a reference transition system"
 DESIGN_REF = "DESIGN.md §5 C04"
 LEVEL_TEXT = ("seeded exploration of plans (valid/invalid steps at every position, both settings of the allow switch, file and "
               "in-memory delivery, read faults); every triplet and the exported text are checked against the reference "
